@@ -572,7 +572,8 @@ var recordedLeaf = map[string]bool{"LastIrreversibleHeight": true, "PreBlockArbi
 
 // the three membership leaves are a recorded finding only when the rolled-back range contains an
 // emergency-inactive transaction on a producer that was already inactive
-var emergLeaf = map[string]bool{"ActivityProducers[+]": true, "InactiveProducers[-]": true, "EmergencyInactiveArbiters[-]": true}
+var emergLeaf = map[string]bool{"ActivityProducers[+]": true, "InactiveProducers[-]": true, "EmergencyInactiveArbiters[-]": true,
+	"Producer.inactiveSince": true, "Producer.state": true, "Producer.penalty": true} // the constants revertSettingInactiveProducer writes
 
 // a CancelProducer in the block in which the pending producer is activated leaves it Active AND in
 // CanceledProducers with its nickname released; later constant undos (cancelHeight = 0, nickname re-added) show it
@@ -580,7 +581,8 @@ var twoMapsLeaf = map[string]bool{"CanceledProducers[-]": true, "Nicknames[+]": 
 
 // the first Append of the block after ProcessSpecialTxPayload reads the state while the temporary changes are
 // still applied (C20 note): the block takes another branch than on a node that never saw the payload
-var specialLeaf = map[string]bool{"ActivityProducers[+]": true, "IllegalProducers[-]": true, "ActivityProducers[-]": true, "IllegalProducers[+]": true}
+var specialLeaf = map[string]bool{"ActivityProducers[+]": true, "IllegalProducers[-]": true, "ActivityProducers[-]": true, "IllegalProducers[+]": true,
+	"InactiveProducers[+]": true, "InactiveProducers[-]": true, "EmergencyInactiveArbiters[+]": true, "EmergencyInactiveArbiters[-]": true}
 
 func recorded(n string) bool {
 	return recordedLeaf[n] || (lastEmergTwice && emergLeaf[n]) || (lastTwoMaps && twoMapsLeaf[n]) || (lastSpecial && specialLeaf[n])
